@@ -14,6 +14,7 @@ import (
 	kwpsubtle "github.com/tink-crypto/tink-go/v2/kwp/subtle"
 	sigsubtle "github.com/tink-crypto/tink-go/v2/signature/subtle"
 	streamsubtle "github.com/tink-crypto/tink-go/v2/streamingaead/subtle"
+	"github.com/tink-crypto/tink-go/v2/streamingaead/subtle/noncebased"
 )
 
 // gcmDEM is a caller-side DEM helper for the hybrid/subtle ECIES constructors (AES-128-GCM).
@@ -52,7 +53,91 @@ func moreSubtleCtors() []subtleCtor {
 		x, y = p256.ScalarBaseMult(d.FillBytes(make([]byte, 32)))
 		return
 	}
+	// noncebased stubs: the "ciphertext" of a segment is nonce || segment, the "plaintext" of a segment is
+	// the nonce it was opened with - so that the output shows which nonce prefix the object uses
+	stubStream := func(prefix []byte, two func() (func([]byte) ([]byte, error), func([]byte) ([]byte, error), error)) (func([]byte) ([]byte, error), error) {
+		f1, f2, err := two()
+		if err != nil {
+			return nil, err
+		}
+		calls := 0
+		return func(in []byte) ([]byte, error) {
+			calls++
+			if calls == 1 {
+				return f1(in)
+			}
+			return f2(in)
+		}, nil
+	}
 	return []subtleCtor{
+		{name: "signature/subtle.NewED25519VerifierFromPublicKey", keyLen: 32, derive: func(seed []byte) []byte {
+			return ed25519.NewKeyFromSeed(seed).Public().(ed25519.PublicKey)
+		}, buildWith: func(drawn, k, _ []byte) (func([]byte) ([]byte, error), error) {
+			pub := ed25519.PublicKey(k)
+			v, err := sigsubtle.NewED25519VerifierFromPublicKey(&pub)
+			if err != nil {
+				return nil, err
+			}
+			priv := ed25519.NewKeyFromSeed(drawn)
+			return func(in []byte) ([]byte, error) { return verdict(nil, nil, v.Verify(ed25519.Sign(priv, in), in)), nil }, nil
+		}},
+		{name: "signature/subtle.NewED25519SignerFromPrivateKey", keyLen: 32, derive: func(seed []byte) []byte {
+			return ed25519.NewKeyFromSeed(seed)
+		}, buildWith: func(_, k, _ []byte) (func([]byte) ([]byte, error), error) {
+			priv := ed25519.PrivateKey(k)
+			sg, err := sigsubtle.NewED25519SignerFromPrivateKey(&priv)
+			if err != nil {
+				return nil, err
+			}
+			return func(in []byte) ([]byte, error) { return sg.Sign(in) }, nil
+		}},
+		{name: "streamingaead/subtle/noncebased.NewWriter(NoncePrefix)", keyLen: 7, buildWith: func(_, k, _ []byte) (func([]byte) ([]byte, error), error) {
+			return stubStream(k, func() (func([]byte) ([]byte, error), func([]byte) ([]byte, error), error) {
+				mk := func() (func([]byte) ([]byte, error), error) {
+					var buf bytes.Buffer
+					w, err := noncebased.NewWriter(noncebased.WriterParams{W: &buf, SegmentEncrypter: nonceEcho{}, NonceSize: 12, NoncePrefix: k, PlaintextSegmentSize: 16})
+					if err != nil {
+						return nil, err
+					}
+					return func(in []byte) ([]byte, error) {
+						if _, err := w.Write(in); err != nil {
+							return nil, err
+						}
+						if err := w.Close(); err != nil {
+							return nil, err
+						}
+						return buf.Bytes(), nil
+					}, nil
+				}
+				f1, err := mk()
+				if err != nil {
+					return nil, nil, err
+				}
+				f2, err := mk()
+				return f1, f2, err
+			})
+		}},
+		{name: "streamingaead/subtle/noncebased.NewReader(NoncePrefix)", keyLen: 7, buildWith: func(_, k, _ []byte) (func([]byte) ([]byte, error), error) {
+			return stubStream(k, func() (func([]byte) ([]byte, error), func([]byte) ([]byte, error), error) {
+				mk := func() (func([]byte) ([]byte, error), error) {
+					src := &lateReader{}
+					r, err := noncebased.NewReader(noncebased.ReaderParams{R: src, SegmentDecrypter: nonceEcho{}, NonceSize: 12, NoncePrefix: k, CiphertextSegmentSize: 32})
+					if err != nil {
+						return nil, err
+					}
+					return func(in []byte) ([]byte, error) {
+						src.data = append([]byte{0x55}, in...) // any non-empty "ciphertext": the stub returns the nonce
+						return io.ReadAll(r)
+					}, nil
+				}
+				f1, err := mk()
+				if err != nil {
+					return nil, nil, err
+				}
+				f2, err := mk()
+				return f1, f2, err
+			})
+		}},
 		{name: "signature/subtle.NewED25519Verifier", keyLen: 32, derive: func(seed []byte) []byte {
 			return ed25519.NewKeyFromSeed(seed).Public().(ed25519.PublicKey)
 		}, buildWith: func(drawn, k, _ []byte) (func([]byte) ([]byte, error), error) {
@@ -184,4 +269,30 @@ func streamVerdict(a, peer streamer) func([]byte) ([]byte, error) {
 		pt, err := io.ReadAll(r)
 		return verdict(pt, in, err), nil
 	}
+}
+
+// nonceEcho is the segment cipher of the noncebased constructor probes: EncryptSegment returns
+// nonce || segment, DecryptSegment returns the nonce it was given.
+type nonceEcho struct{}
+
+func (nonceEcho) EncryptSegment(segment, nonce []byte) ([]byte, error) {
+	return append(bytes.Clone(nonce), segment...), nil
+}
+func (nonceEcho) DecryptSegment(segment, nonce []byte) ([]byte, error) {
+	return bytes.Clone(nonce), nil
+}
+
+// lateReader serves data that is set after the Reader was constructed.
+type lateReader struct {
+	data []byte
+	off  int
+}
+
+func (l *lateReader) Read(p []byte) (int, error) {
+	if l.off >= len(l.data) {
+		return 0, io.EOF
+	}
+	n := copy(p, l.data[l.off:])
+	l.off += n
+	return n, nil
 }
